@@ -412,7 +412,25 @@ def direct(tname, table):
     return fails
 
 
+def private_first():
+    """the other order: a private table is created and all five ancillary groups are initialised on it before the public
+    table has served anything; then both tables are held against the table text"""
+    priv = core.PeriodicTable("verif_c20_first")
+    covalent_radius.init(priv)
+    crystal_structure.init(priv)
+    xsf.init(priv)
+    xsf.init_spectral_lines(priv)
+    magnetic_ff.init(priv)
+    fails = direct("public", periodictable.elements) + direct("private", priv)
+    for f in fails:
+        f["signature"] = f["signature"].replace("C20:", "C20:private-first:", 1)
+        f["what"] = "[a private table was created and initialised before the public table was touched] " + f["what"]
+    json.dump(dict(direct_fails=fails), sys.stdout)
+
+
 def main():
+    if len(sys.argv) > 2 and sys.argv[2] == "--private-first":
+        return private_first()
     pub = periodictable.elements
     c1, m1 = sweep("public", pub)
     priv = core.PeriodicTable("verif_c20")
@@ -433,6 +451,18 @@ def main():
             ffc.append(c)
             ffm.append(m)
     fails = direct("public", pub) + direct("private", priv)
+    try:
+        import subprocess
+        p2 = subprocess.run([sys.executable, os.path.abspath(__file__), TIER, "--private-first"], stdout=subprocess.PIPE,
+                            stderr=subprocess.PIPE, text=True, timeout=1200, cwd="/")
+        if p2.returncode == 0:
+            fails += json.loads(p2.stdout)["direct_fails"][:6]
+        else:
+            fails.append(dict(signature="C20:private-first:raises", what="with a private table initialised first the checks raise: %s"
+                              % p2.stderr[-400:], table="public", kind="raises", key="order"))
+    except Exception as e:  # noqa
+        fails.append(dict(signature="C20:private-first:raises", what="private-first order did not run: %s" % e, table="public",
+                          kind="raises", key="order"))
     counts = dict(
         radii=sum(1 for el in pub if el.covalent_radius is not None),
         structure_slots=sum(1 for el in pub if hasattr(el, "crystal_structure")),
